@@ -98,6 +98,9 @@ func c08Case(w *core.Worker, i int) {
 			valid = false
 		}
 		sql = fmt.Sprintf("INSERT INTO %s SELECT id + 5000, %s, c2 FROM t s;", tn, e)
+		if fail == "rowlen" {
+			valid, sql = true, fmt.Sprintf("INSERT INTO %s SELECT id + 5000, c1 FROM t s;", tn)
+		}
 	case "update", "update-udf":
 		e := map[string]string{"divzero": div, "subquery2": sub, "udf-trigger": udf, "unknown-field": "nofield", "cancel": "c1 || 'x'"}[fail]
 		if e == "" || (stmt == "update-udf" && fail != "udf-trigger") || (stmt == "update" && fail == "udf-trigger") {
@@ -144,12 +147,22 @@ func c08Case(w *core.Worker, i int) {
 			valid = false
 		}
 		sql = fmt.Sprintf("CREATE TABLE `created.csv` AS SELECT id, %s FROM t;", e)
+		// the query succeeds and the column list is rejected afterwards
+		if fail == "rowlen" && state != "temp" {
+			valid, sql = true, "CREATE TABLE `created.csv` (a) AS SELECT id, c1 FROM t;"
+		}
+		if fail == "ambiguous" && state != "temp" {
+			valid, sql = true, "CREATE TABLE `created.csv` (a, a) AS SELECT id, c1 FROM t;"
+		}
 	case "alter-add":
 		e := map[string]string{"divzero": div, "subquery2": sub, "udf-trigger": udf, "unknown-field": "nofield"}[fail]
 		if e == "" {
 			valid = false
 		}
 		sql = fmt.Sprintf("ALTER TABLE %s ADD x DEFAULT %s;", tn, e)
+		if fail == "ambiguous" {
+			valid, sql = true, fmt.Sprintf("ALTER TABLE %s ADD (x, c1);", tn) // a column of that name exists
+		}
 	}
 	if !valid || k < 1 || k > size {
 		w.Case(combo+"#"+strconv.Itoa(round), false)
@@ -193,6 +206,9 @@ func c08Case(w *core.Worker, i int) {
 	tables := []string{"t", "u", "d"}
 	if state == "temp" {
 		tables = append(tables, "tmp")
+	}
+	if stmt == "create-as" {
+		tables = append(tables, "`created.csv`") // does not exist before the statement and must not exist for the following ones
 	}
 	snap := func() map[string]string {
 		m := map[string]string{}
